@@ -116,6 +116,48 @@ func resultValue(call *ssa.Call, i int) ssa.Value {
 	return nil
 }
 
+var nonNilDepth int
+
+// errorMaker: the module function a call runs when that is known: a named function, a literal
+// called in place, or a literal held in a local variable that is assigned once.
+func errorMaker(call *ssa.Call) *ssa.Function {
+	if g := call.Call.StaticCallee(); g != nil {
+		if ssax.InModule(g) && len(g.Blocks) > 0 {
+			return g
+		}
+		return nil
+	}
+	v := call.Call.Value
+	for i := 0; i < 3; i++ {
+		switch x := v.(type) {
+		case *ssa.MakeClosure:
+			fn, _ := x.Fn.(*ssa.Function)
+			return fn
+		case *ssa.Function:
+			return x
+		case *ssa.UnOp:
+			if al, ok := x.X.(*ssa.Alloc); ok {
+				v = ssax.SingleStore(al)
+				if v == nil {
+					return nil
+				}
+				continue
+			}
+			if fv, ok := x.X.(*ssa.FreeVar); ok {
+				v = ssax.CapturedSingleStore(fv)
+				if v == nil {
+					return nil
+				}
+				continue
+			}
+			return nil
+		default:
+			return nil
+		}
+	}
+	return nil
+}
+
 // nonNilError: the value is certainly a non-nil error.
 func nonNilError(v ssa.Value, at *ssa.BasicBlock) bool {
 	switch x := v.(type) {
@@ -123,6 +165,24 @@ func nonNilError(v ssa.Value, at *ssa.BasicBlock) bool {
 		if f := x.Call.StaticCallee(); f != nil {
 			switch f.String() {
 			case "fmt.Errorf", "errors.New":
+				return true
+			}
+		}
+		// a wrapping helper of the module (also a local literal, called directly or through the
+		// variable it was assigned to once) all of whose returns are certainly non-nil errors
+		if h := errorMaker(x); h != nil && nonNilDepth < 2 {
+			nonNilDepth++
+			all, n := true, 0
+			for _, hb := range h.Blocks {
+				if r, ok := hb.Instrs[len(hb.Instrs)-1].(*ssa.Return); ok && len(r.Results) == 1 {
+					n++
+					if !nonNilError(r.Results[0], hb) {
+						all = false
+					}
+				}
+			}
+			nonNilDepth--
+			if all && n > 0 {
 				return true
 			}
 		}
@@ -968,6 +1028,18 @@ func Scrap(w *load.World, c *core.Collector) {
 		}
 	}
 	// Commit: failed := t.failed.Load() || fail ; in the loop: scrapped + delete under failed
+	// (the loop may sit in a helper that Commit hands its fail argument to)
+	if h := homeOf(commit, rangesOverWritten); h != nil && h != commit && len(h.Params) > 1 && len(commit.Params) > 1 {
+		passes := false
+		for _, site := range staticCallSitesIn(commit, h) {
+			if len(site.Common().Args) > 1 && site.Common().Args[1] == ssa.Value(commit.Params[1]) {
+				passes = true
+			}
+		}
+		if passes {
+			commit = h
+		}
+	}
 	var failedCond ssa.Value
 	for _, b := range commit.Blocks {
 		if ifi, ok := b.Instrs[len(b.Instrs)-1].(*ssa.If); ok {
@@ -1915,6 +1987,72 @@ func Errs(w *load.World, c *core.Collector) {
 			where = w.At(in)
 		}
 	}
+	// the managed transaction is handed to a helper as a bound method (db.Update): the helper calls
+	// it with a literal that returns the callback's result, returns what it returns, and Write
+	// returns the helper's result
+	if !okWiring {
+		for _, b := range wr.Blocks {
+			for _, in := range b.Instrs {
+				call, ok := in.(*ssa.Call)
+				if !ok {
+					continue
+				}
+				h := call.Call.StaticCallee()
+				if h == nil || !ssax.InModule(h) || len(h.Blocks) == 0 {
+					continue
+				}
+				for ai, a := range call.Call.Args {
+					mc, ok := a.(*ssa.MakeClosure)
+					if !ok || !strings.Contains(mc.Fn.(*ssa.Function).String(), "bbolt.DB).Update") || ai >= len(h.Params) {
+						continue
+					}
+					p := h.Params[ai]
+					for _, hb := range h.Blocks {
+						for _, hi := range hb.Instrs {
+							pc, ok := hi.(*ssa.Call)
+							if !ok || pc.Call.Value != ssa.Value(p) || len(pc.Call.Args) != 1 {
+								continue
+							}
+							lmc, ok := pc.Call.Args[0].(*ssa.MakeClosure)
+							if !ok {
+								continue
+							}
+							lit := lmc.Fn.(*ssa.Function)
+							allRet := true
+							for _, lb := range lit.Blocks {
+								for _, li := range lb.Instrs {
+									if r, ok := li.(*ssa.Return); ok {
+										o := ssax.Prov(r.Results[0])
+										if !o.HasPrefix("freevar:") && !o.HasPrefix("call:?") {
+											allRet = false
+										}
+										if cv, ok := r.Results[0].(*ssa.Call); !ok || cv.Call.StaticCallee() != nil {
+											allRet = false
+										}
+									}
+								}
+							}
+							helperReturns, writeReturns := false, false
+							for _, hb2 := range h.Blocks {
+								if r, ok := hb2.Instrs[len(hb2.Instrs)-1].(*ssa.Return); ok && len(r.Results) == 1 && r.Results[0] == ssa.Value(pc) {
+									helperReturns = true
+								}
+							}
+							for _, wb := range wr.Blocks {
+								if r, ok := wb.Instrs[len(wb.Instrs)-1].(*ssa.Return); ok && len(r.Results) == 1 && r.Results[0] == ssa.Value(call) {
+									writeReturns = true
+								}
+							}
+							if allRet && helperReturns && writeReturns {
+								okWiring = true
+								where = w.At(in)
+							}
+						}
+					}
+				}
+			}
+		}
+	}
 	if okWiring {
 		c.Add("ERRS", "rollback-wiring", core.OK, where, "", props...)
 	} else {
@@ -2259,4 +2397,33 @@ func txOutcomeReturned(w *load.World, c *core.Collector) {
 	if n < 6 {
 		c.Add("ERRS", "anchor:tx-outcomes", core.Undecided, "", fmt.Sprintf("found %d calls of the store's Write, expected at least 6", n), "C07")
 	}
+}
+
+// rangesOverWritten: the function ranges over a transaction's writtenCaches
+func rangesOverWritten(g *ssa.Function) bool {
+	for _, b := range g.Blocks {
+		for _, in := range b.Instrs {
+			if n, ok := in.(*ssa.Next); ok {
+				if rg, ok := n.Iter.(*ssa.Range); ok {
+					if p, _ := ssax.Path(rg.X); strings.Contains(p, "writtenCaches") {
+						return true
+					}
+				}
+			}
+		}
+	}
+	return false
+}
+
+// staticCallSitesIn: the static calls of h in f
+func staticCallSitesIn(f, h *ssa.Function) []ssa.CallInstruction {
+	var out []ssa.CallInstruction
+	for _, b := range f.Blocks {
+		for _, in := range b.Instrs {
+			if ci, ok := in.(ssa.CallInstruction); ok && ci.Common().StaticCallee() == h {
+				out = append(out, ci)
+			}
+		}
+	}
+	return out
 }
